@@ -68,8 +68,8 @@ int main(int argc, char **argv) {
 	// ---- 1. generated secrets under scripted coins ----------------------------------------------------------------
 	if (want("css")) {
 		Group G(64 + gen().below(40), 24 + gen().below(30), 3);
-		// all coin vectors for n <= 4 (5 thorough): every permutation and every rotation
-		size_t NMAX = T ? 5 : 4;
+		// all coin vectors for n <= 5 (6 thorough): every permutation and every rotation
+		size_t NMAX = T ? 6 : 5;
 		for (size_t n = 1; n <= NMAX; n++) {
 			std::vector<unsigned long> c(n > 0 ? n - 1 : 0, 0);
 			std::map<std::string, int> seen;
@@ -234,6 +234,44 @@ int main(int argc, char **argv) {
 			if (ok != is_bijection(v)) propfail("import-bijection", "import of index vector " + tok_idx(v) + (ok ? " accepted although not a bijection" : " refused although a bijection"));
 			if (n <= 40) Rec("imp").b(o.str()).d(ok ? 1 : 0);
 		}
+	}
+
+	// ---- 5. the QR (Schindelhauer) encoding: implementation-level oracle with real keys ---------------------------------
+	if (want("qr")) {
+		const size_t P = 2, TB = 3;
+		SchindelhauerTMCG tm(16, P, TB);
+		std::vector<TMCG_SecretKey*> sk; TMCG_PublicKeyRing ring(P);
+		for (size_t k = 0; k < P; k++) { sk.push_back(new TMCG_SecretKey("player", "p@example.org", 512, false)); ring.keys[k] = TMCG_PublicKey(*sk[k]); }
+		auto open = [&](const TMCG_Card &c) { TMCG_CardSecret cs(P, TB); for (size_t k = 0; k < P; k++) tm.TMCG_SelfCardSecret(c, cs, *sk[k], k); return tm.TMCG_TypeOfCard(cs); };
+		for (unsigned k = 0; k < (T ? 150u : 30u); k++) {
+			size_t n = (k < 10) ? 1 + k % 5 : 2 + gen().below(T ? 20 : 10);
+			TMCG_Stack<TMCG_Card> s, s1, s2, s3; std::vector<size_t> types;
+			for (size_t i = 0; i < n; i++) {
+				size_t t = gen().below(1 + gen().below(8)); TMCG_Card c(P, TB);
+				if (gen().coin()) tm.TMCG_CreateOpenCard(c, ring, t);
+				else { TMCG_CardSecret cs(P, TB); tm.TMCG_CreatePrivateCard(c, cs, ring, gen().below(P), t); }
+				s.push(c); types.push_back(t);
+			}
+			TMCG_StackSecret<TMCG_CardSecret> sigma, pi, gam;
+			bool cyc = (n >= 2) && gen().below(3) == 0;
+			size_t off = tm.TMCG_CreateStackSecret(sigma, cyc, ring, gen().below(P), n);
+			tm.TMCG_CreateStackSecret(pi, false, ring, gen().below(P), n);
+			std::vector<size_t> f1, f2; for (size_t i = 0; i < sigma.size(); i++) f1.push_back(sigma[i].first); for (size_t i = 0; i < pi.size(); i++) f2.push_back(pi[i].first);
+			if (f1.size() != n || !is_bijection(f1) || f2.size() != n || !is_bijection(f2)) { propfail("qr-css-bijection", "generated QR stack secret is not a bijection: " + tok_idx(f1) + " / " + tok_idx(f2)); continue; }
+			tm.TMCG_MixStack(s, s1, sigma, ring, gen().coin());
+			if (s1.size() != n) { propfail("qr-mix-size", "mixed QR stack has the wrong size"); continue; }
+			for (size_t i = 0; i < n; i++) if (open(s1[i]) != types[f1[i]]) { propfail("qr-mix-type", "QR encoding: card " + std::to_string(i) + " does not open to the type of input card " + std::to_string(f1[i]) + ", secret indices " + tok_idx(f1)); break; }
+			if (cyc) for (size_t i = 0; i < n; i++) if (open(s1[(i + off) % n]) != types[i]) { propfail("qr-rot-offset", "QR encoding: rotation offset " + std::to_string(off) + " wrong for indices " + tok_idx(f1)); break; }
+			gam = pi;
+			tm.TMCG_GlueStackSecret(sigma, gam, ring);
+			tm.TMCG_MixStack(s1, s2, pi, ring, false);
+			tm.TMCG_MixStack(s, s3, gam, ring, false);
+			if (!(s2 == s3)) propfail("qr-glue-compose", "QR encoding: mix(mix(s,sigma),pi) differs from mix(s,glue(sigma,pi)), indices " + tok_idx(f1) + " / " + tok_idx(f2));
+			std::vector<size_t> a = types, b; for (size_t i = 0; i < s2.size(); i++) b.push_back(open(s2[i]));
+			std::sort(a.begin(), a.end()); std::sort(b.begin(), b.end());
+			if (a != b) propfail("qr-mix-multiset", "QR encoding: multiset of types changed after two shuffles");
+		}
+		for (auto p : sk) delete p;
 	}
 	return 0;
 }
